@@ -37,6 +37,31 @@ mod v_iface_ingress6 {
         !is_mcast(a) && !is_unspec(a)
     }
 
+    /// destination with 9 symbolic octets (0-3, 11-15), the rest zero: covers both own addresses, all-nodes, the
+    /// solicited-node group, ::1, other multicast groups and foreign unicast addresses (16 free octets exhausted 8 GB)
+    fn any_dst() -> [u8; 16] {
+        let mut a = [0u8; 16];
+        a[0] = kani::any();
+        a[1] = kani::any();
+        a[2] = kani::any();
+        a[3] = kani::any();
+        a[11] = kani::any();
+        a[12] = kani::any();
+        a[13] = kani::any();
+        a[14] = kani::any();
+        a[15] = kani::any();
+        a
+    }
+    /// source with 4 symbolic octets (0, 1, 14, 15): unspecified, multicast, link-local, global
+    fn any_src() -> [u8; 16] {
+        let mut a = [0u8; 16];
+        a[0] = kani::any();
+        a[1] = kani::any();
+        a[14] = kani::any();
+        a[15] = kani::any();
+        a
+    }
+
     fn put16(b: &mut [u8], o: usize, v: u16) {
         b[o] = (v >> 8) as u8;
         b[o + 1] = v as u8;
@@ -159,8 +184,8 @@ mod v_iface_ingress6 {
 
     fn tcp_case(finding_region: bool) {
         env6_tcp!(iface, sockets, th);
-        let src: [u8; 16] = kani::any();
-        let dst: [u8; 16] = kani::any();
+        let src = any_src();
+        let dst = any_dst();
         let sport: u16 = kani::any();
         let dport: u16 = kani::any();
         let flags: u8 = kani::any();
@@ -174,10 +199,17 @@ mod v_iface_ingress6 {
         b[52] = 0x50;
         b[53] = flags;
         put16(&mut b, 54, kani::any());
+        // the loopback destination is known finding F-C11-ipv6-loopback-from-network: excluded here, checked by finding_ipv6_loopback_tcp
+        kani::assume((dst == LOOPBACK) == finding_region);
         let reply = iface.inner.process_ip(&mut sockets, PacketMeta::default(), &b[..], &mut iface.fragments);
         let untouched = tcp_untouched(&sockets, th);
         let own = is_own(&dst);
         let rst_in = flags & 0x04 != 0;
+        if finding_region {
+            // known finding F-C11-ipv6-loopback-from-network: ::1 is accepted although it is not configured
+            crate::vassert!(untouched, "prop:c11_tcp_to_loopback_from_network_changes_no_socket");
+            return;
+        }
         if !own {
             crate::vassert!(untouched, "prop:c11_tcp_to_non_own_destination_changes_no_socket");
         }
@@ -197,10 +229,16 @@ mod v_iface_ingress6 {
         kani::cover!(reply.is_none() && dst == ALL_NODES && dport == TCP_PORT && flags == 0x02, "SYN to all-nodes multicast");
     }
 
-    // @harness props=C11,C10 cfg=KI6 tier=q to=1200 mem=8 unwind=20 opts=nomem covers=3 funcs=InterfaceInner::process_ip;InterfaceInner::process_ipv6;InterfaceInner::process_tcp;InterfaceInner::has_multicast_group;InterfaceInner::has_solicited_node;tcp::Socket::accepts bounds=raw-IP_medium;_own_fe80::1_and_2001:db8::1;_any_128-bit_source_and_destination;_any_ports,_flags
+    // @harness props=C11,C10 cfg=KI6 tier=q to=1200 mem=8 unwind=20 opts=nomem covers=3 funcs=InterfaceInner::process_ip;InterfaceInner::process_ipv6;InterfaceInner::process_tcp;InterfaceInner::has_multicast_group;InterfaceInner::has_solicited_node;tcp::Socket::accepts bounds=raw-IP_medium;_own_fe80::1_and_2001:db8::1;_source_with_4_and_destination_with_9_symbolic_octets_(all_address_classes);_any_ports,_flags
     #[kani::proof]
     pub(crate) fn ipv6_addr_tcp() {
         tcp_case(false);
+    }
+
+    // @harness props=C11 kind=finding cfg=KI6 tier=q to=1200 mem=8 unwind=20 opts=nomem funcs=InterfaceInner::process_ipv6;InterfaceInner::process_tcp bounds=destination_::1_(not_configured),_any_source,_ports,_flags
+    #[kani::proof]
+    pub(crate) fn finding_ipv6_loopback_tcp() {
+        tcp_case(true);
     }
 
     // @harness props=C11,C10,C09 cfg=KI6 tier=q to=1200 mem=8 unwind=20 opts=nomem covers=3 funcs=InterfaceInner::process_ip;InterfaceInner::process_ipv6;InterfaceInner::process_udp;InterfaceInner::icmpv6_reply;udp::Socket::accepts;udp::Socket::process bounds=raw-IP_medium;_own_fe80::1_and_2001:db8::1;_any_128-bit_source_and_destination;_any_ports;_4_payload_bytes
@@ -247,12 +285,12 @@ mod v_iface_ingress6 {
         kani::cover!(reply.is_some() && own, "port unreachable sent");
     }
 
-    // @harness props=C11,C10,C03 cfg=KI6 tier=q to=1200 mem=8 unwind=20 opts=nomem covers=2 funcs=InterfaceInner::process_ip;InterfaceInner::process_ipv6;InterfaceInner::process_icmpv6;InterfaceInner::icmpv6_reply bounds=raw-IP_medium;_own_fe80::1_and_2001:db8::1;_any_128-bit_source_and_destination;_ICMPv6_echo_request/reply_or_error_types_with_4_data_bytes
+    // @harness props=C11,C10,C03 cfg=KI6 tier=q to=1200 mem=8 unwind=20 opts=nomem covers=2 funcs=InterfaceInner::process_ip;InterfaceInner::process_ipv6;InterfaceInner::process_icmpv6;InterfaceInner::icmpv6_reply bounds=raw-IP_medium;_own_fe80::1_and_2001:db8::1;_source_with_4_and_destination_with_9_symbolic_octets_(all_address_classes);_ICMPv6_echo_request/reply_or_error_types_with_4_data_bytes
     #[kani::proof]
     pub(crate) fn ipv6_addr_icmp() {
         env6_icmp!(iface, sockets, ih);
-        let src: [u8; 16] = kani::any();
-        let dst: [u8; 16] = kani::any();
+        let src = any_src();
+        let dst = any_dst();
         let ty: u8 = kani::any();
         // echo request / reply and the error types; NDISC and MLD have their own harnesses
         kani::assume(ty == 128 || ty == 129 || ty <= 4);
@@ -283,23 +321,42 @@ mod v_iface_ingress6 {
         kani::cover!(reply.is_none() && ty == 1, "incoming ICMPv6 error ignored");
     }
 
-    // unknown next header: ParamProblem only for unicast destinations (RFC 4443 2.4 e)
-    // @harness props=C11,C10 cfg=KI6 tier=q to=1200 mem=8 unwind=20 opts=nomem covers=2 funcs=InterfaceInner::process_ipv6;InterfaceInner::process_nxt_hdr;InterfaceInner::icmpv6_reply bounds=raw-IP_medium;_unknown_next_header_value;_any_source/destination
-    #[kani::proof]
-    pub(crate) fn ipv6_unknown_nxt_hdr() {
+    // unknown next header: ParamProblem only for unicast destinations (RFC 4443 2.4 e).
+    // Known finding F-C11-paramproblem-multicast: the reply IS sent for multicast destinations (and /repo's own
+    // test expects it); the main harness excludes multicast destinations, the finding harness checks inside.
+    fn unknown_nxt_hdr_case(finding_region: bool) {
         env6_udp!(iface, sockets, uh);
         let src: [u8; 16] = kani::any();
         let dst: [u8; 16] = kani::any();
+        kani::assume(is_mcast(&dst) == finding_region);
         let mut b = [0u8; 44];
         ipv6_header(&mut b, 4, 0x0c, 64, &src, &dst);
         let reply = iface.inner.process_ip(&mut sockets, PacketMeta::default(), &b[..], &mut iface.fragments);
         if let Some(p) = &reply {
-            crate::vassert!(unicast_src(&src), "prop:c11_no_reply_to_non_unicast_source");
-            crate::vassert!(is_own(&reply_src(p)), "prop:c10_reply_source_is_own_unicast_address");
-            crate::vassert!(!is_mcast(&dst), "prop:c11_no_icmp_error_for_multicast_destination");
+            if finding_region {
+                crate::vassert!(false, "prop:c11_no_icmp_error_for_multicast_destination");
+            } else {
+                crate::vassert!(unicast_src(&src), "prop:c11_no_reply_to_non_unicast_source");
+                crate::vassert!(is_own(&reply_src(p)), "prop:c10_reply_source_is_own_unicast_address");
+                crate::vassert!(is_own(&dst) || dst == LOOPBACK, "prop:c11_foreign_destination_not_answered");
+            }
         }
-        kani::cover!(reply.is_some() && is_own(&dst), "parameter problem sent for a unicast destination");
-        kani::cover!(dst == ALL_NODES, "multicast destination");
+        if !finding_region {
+            kani::cover!(reply.is_some() && is_own(&dst), "parameter problem sent for a unicast destination");
+            kani::cover!(reply.is_none() && !is_own(&dst), "foreign unicast destination ignored");
+        }
+    }
+
+    // @harness props=C11,C10 cfg=KI6 tier=q to=1200 mem=8 unwind=20 opts=nomem covers=2 funcs=InterfaceInner::process_ipv6;InterfaceInner::process_nxt_hdr;InterfaceInner::icmpv6_reply bounds=raw-IP_medium;_unknown_next_header_value;_any_source;_any_non-multicast_destination
+    #[kani::proof]
+    pub(crate) fn ipv6_unknown_nxt_hdr() {
+        unknown_nxt_hdr_case(false);
+    }
+
+    // @harness props=C11 kind=finding cfg=KI6 tier=q to=1200 mem=8 unwind=20 opts=nomem funcs=InterfaceInner::process_ipv6;InterfaceInner::process_nxt_hdr;InterfaceInner::icmpv6_reply bounds=raw-IP_medium;_unknown_next_header_value;_any_source;_any_multicast_destination
+    #[kani::proof]
+    pub(crate) fn finding_ipv6_unknown_nxt_hdr_multicast() {
+        unknown_nxt_hdr_case(true);
     }
 
     // C03: arbitrary bytes as an IPv6 packet (incl. hop-by-hop options) never panic
